@@ -190,7 +190,11 @@ def case_group_recursion(ctx, fn, nc, ns, settings):
     for grp in sorted(set(gv)):
         sel = [c for c in range(nc) if gv[c] == grp]
         sub = arrays.mk([rows[c][t] for c in sel for t in range(ns)], shape=(len(sel), ns), tag=np.dtype(float))
-        alone = ctx.call(fn + "_alone", f, sub, **settings)
+        alone_settings = dict(settings)
+        if fn == "kfilt" and settings.get("ntr_pad"):
+            # groups are filtered without lateral padding or apodisation (they may be shorter than the pad), whatever was asked for the whole array
+            alone_settings.update(ntr_pad=0, ntr_tap=None)
+        alone = ctx.call(fn + "_alone", f, sub, **alone_settings)
         ctx.oblige("grouped_filter_equals_filter_of_each_group_with_same_settings", all_([core.eq(out[c, t], alone[i, t]) for i, c in enumerate(sel) for t in range(ns)]),
                    detail={"fn": fn, "group": grp, "members": sel, "settings": str(settings)[:120]})
 
@@ -263,7 +267,8 @@ def case_destripe(ctx, nc, ns, k_filter):
 
 KF = [{"lagc": 300, "ntr_pad": 0, "ntr_tap": None, "butter_kwargs": {"N": 3, "Wn": 0.1, "btype": "highpass"}},
       {"lagc": 7, "ntr_pad": 0, "ntr_tap": None, "butter_kwargs": {"N": 3, "Wn": 0.01, "btype": "highpass"}},
-      {"lagc": 0, "ntr_pad": 0, "ntr_tap": None, "butter_kwargs": {"N": 2, "Wn": 0.2, "btype": "highpass"}}]
+      {"lagc": 0, "ntr_pad": 0, "ntr_tap": None, "butter_kwargs": {"N": 2, "Wn": 0.2, "btype": "highpass"}},
+      {"lagc": 300, "ntr_pad": 2, "ntr_tap": None, "butter_kwargs": {"N": 3, "Wn": 0.1, "btype": "highpass"}}]
 FK = [{"si": 0.002, "dx": 1, "vbounds": [1, 2], "btype": "highpass", "ntr_pad": 0, "lagc": 0.5},
       {"si": 0.002, "dx": 1, "vbounds": [1, 2], "btype": "lowpass", "ntr_pad": 0, "lagc": 0.5},
       {"si": 0.002, "dx": 1, "vbounds": [1, 2], "btype": "highpass", "ntr_pad": 0, "lagc": 0.1},
@@ -337,8 +342,10 @@ x = rs.normal(size=(nc, ns)); x[:, 100:140] += 5 * np.sin(np.arange(40))[None, :
 g = (np.arange(nc) >= 40).astype(int)
 out = fn(x.copy(), collection=g, **settings)
 bad = []
+alone_settings = dict(settings)
+if {fn!r} == 'kfilt' and settings.get('ntr_pad'): alone_settings.update(ntr_pad=0, ntr_tap=None)      # groups are neither padded nor apodised
 for grp in (0, 1):
-    alone = fn(x[g == grp].copy(), **settings)
+    alone = fn(x[g == grp].copy(), **alone_settings)
     if not np.allclose(out[g == grp], alone, rtol=1e-6, atol=1e-9): bad.append((grp, float(np.max(np.abs(out[g == grp] - alone)))))
 print(bad)
 if bad: reproduced(f'{fn} with channel groups differs from {fn} on each group alone with the same settings {{settings}}: {{bad}}')
@@ -346,10 +353,19 @@ not_reproduced()
 """
     if case == "agc":
         eps = float(Fraction(str(m.get("epsilon", "1/100000000"))))
+        nc_, ns_ = params["nc"], params["ns"]
+        xm = [[float(Fraction(str(m.get(f"x{c}_{t}", 0)))) for t in range(ns_)] for c in range(nc_)]
         return f"""
 import ibldsp.voltage as v
+# 1. the witness itself (same window as in the check)
+xw = np.array({xm}, dtype=float)
+out, gain = v.agc(xw.copy(), wl=0.01, si=0.002, epsilon={eps!r})
+err = np.max(np.abs(out * gain - xw))
+print('witness', xw.tolist(), out.tolist(), gain.tolist(), err)
+if err > 1e-9 * max(1.0, np.abs(xw).max()): reproduced(f'agc(epsilon={eps!r}) on {{xw.tolist()}}: data x gain differs from the input by {{err}}')
+# 2. longer random traces, one dead channel, one channel whose samples sum to zero
 rs = np.random.default_rng(0)
-x = rs.normal(size=(6, 300)); x[2] = 0
+x = rs.normal(size=(6, 300)); x[2] = 0; x[4] = np.tile([1.0, -1.0], 150)
 for eps in (1e-8, {eps!r}):
     out, gain = v.agc(x.copy(), wl=0.05, si=0.002, epsilon=eps)
     err = np.max(np.abs(out * gain - x))
